@@ -29,6 +29,7 @@ type vSec struct {
 	h        *vH
 	failSet  atomic.Int32 // fail the next n Set calls
 	failAll  atomic.Bool
+	slow     atomic.Bool
 	errCount atomic.Int64
 }
 
@@ -50,6 +51,9 @@ func (s *vSec) Set(key int, value int, cost int64, expire int64) error {
 		}
 		s.h.tr.Emit(vRec{"ev": "sec", "op": "set", "k": key, "v": value, "dl": s.h.uX(expire), "ok": 0})
 		return errors.New("secondary set failed")
+	}
+	if s.slow.Load() && value%2 == 0 {
+		time.Sleep(time.Duration(50+value%7*40) * time.Microsecond) // a slow secondary store
 	}
 	s.mu.Lock()
 	s.m[key] = vSecEnt{v: value, cost: cost, expire: expire}
@@ -129,6 +133,16 @@ func vNewHybrid(tr *vTrace, maxsize int64, loading bool, start int64) (*vH, *vSe
 	h.mu.Lock()
 	h.store = s
 	h.mu.Unlock()
+	for i := 0; i < 2000; i++ { // the ticker goroutine creates the ticker under policyMu
+		s.policyMu.Lock()
+		tk := s.maintenanceTicker
+		s.policyMu.Unlock()
+		if tk != nil {
+			h.ticker = tk
+			break
+		}
+		time.Sleep(100 * time.Microsecond)
+	}
 	if loading {
 		h.lstore = NewLoadingStore[int, int](s)
 		h.lstore.Loader(func(ctx context.Context, key int) (Loaded[int], error) {
@@ -187,6 +201,8 @@ func vHybridRun(tr *vTrace, id string, salt int64) (hang bool) {
 	c := h.client("c1")
 	un := c.register()
 	defer un()
+	busy := rnd.Intn(2) == 0 // operations pile up on the workers: slow secondary store, rare settling
+	sec.slow.Store(busy)
 	keys := int(maxsize) + 2 + rnd.Intn(4)
 	ttls := []int64{0, 0, 0, 900, 3000, 100000}
 	hget := func(k int) {
@@ -224,7 +240,7 @@ func vHybridRun(tr *vTrace, id string, salt int64) (hang bool) {
 				sec.failSet.Store(int32(1 + rnd.Intn(3)))
 			}
 		}
-		if rnd.Intn(3) != 0 {
+		if (!busy && rnd.Intn(3) != 0) || (busy && rnd.Intn(6) == 0) {
 			if !h.settleHybrid() {
 				tr.Emit(vRec{"ev": "hang", "p": "c1", "op": "settle"})
 				return true
